@@ -1,7 +1,7 @@
 #!/bin/bash
 # Offline set-up: build the harness once (warms the Go build cache incl. the patched runtime).
 set -e
-cd /verif
+cd "$(dirname "$0")"
 ./build.sh
 ./build19.sh
 echo "setup ok"
